@@ -5,7 +5,7 @@
    protodesc on every run (family "dval").  Totality of the REAL code is established by search
    only (harness, subprocess isolation); the theorems below are about the model. *)
 From Coq Require Import List NArith ZArith Bool.
-From PB Require Import Desc.ValidateModel Desc.ValidateP Desc.ValidateSoundP Desc.ValidateTotalP Desc.ValidateBaseP
+From PB Require Import Desc.ValidateModel Desc.ValidateP Desc.ValidateSoundP Desc.ValidateTotalP Desc.ValidateBaseP Desc.ValidateRangesP
                        Desc.FeaturesModel Desc.FeaturesP.
 Import ListNotations.
 Open Scope Z_scope.
@@ -27,17 +27,69 @@ Print Assumptions C35_validate_total.
      empty enum, duplicate numbers without allow_alias, allow_alias without aliases, open enum
      whose first value is not zero, use of a reserved name, duplicate reserved names, value
      without a number.
-   _partial: the remaining definite-error classes of the property text (invalid / overlapping
-   ranges, use of reserved numbers, fields in extension ranges, map-entry and group shape,
-   non-consecutive oneofs, duplicate declared names, unresolvable references) are checked by the
-   model in code order and compared with the implementation on every run, but their declarative
-   characterisation is not proved here (binary search / two-pointer sweep over the sorted copy). *)
+   The range-related classes (invalid / overlapping ranges, use of reserved numbers, fields in
+   extension ranges) are C35_validate_sound_ranges below.
+   _partial: the remaining definite-error classes of the property text (map-entry and group
+   shape, non-consecutive oneofs, duplicate declared names, unresolvable references) are checked
+   by the model in code order and compared with the implementation on every run, but their
+   declarative characterisation is not proved. *)
 Theorem C35_validate_sound_partial : forall allow f,
   validate false allow f = Accept ->
   (forall m, In m (file_msgs f) -> ~ msg_definite_error (fl_syntax f) m) /\
   (forall e, In e (file_enums f) -> ~ enum_definite_error (fl_syntax f) e).
 Proof. exact validate_sound. Qed.
 Print Assumptions C35_validate_sound_partial.
+
+(* validate_sound, ranges: an accepted file has, in every message, only valid reserved and
+   extension ranges (1 <= start <= end-1 <= 2^29-1, with the int32 wrap of the code's End()),
+   no range declared twice, pairwise disjoint reserved ranges, pairwise disjoint extension
+   ranges, reserved ranges disjoint from extension ranges, and no field numbered inside any of
+   them; and in every enum only valid, distinct, pairwise disjoint reserved ranges that contain
+   no value number. *)
+Theorem C35_validate_sound_ranges : forall allow f,
+  validate false allow f = Accept ->
+  (forall m, In m (file_msgs f) -> ~ msg_range_error m) /\
+  (forall e, In e (file_enums f) -> ~ enum_range_error e).
+Proof. exact validate_sound_ranges. Qed.
+Print Assumptions C35_validate_sound_ranges.
+
+(* ranges_checkvalid_spec: FieldRanges.CheckValid (stable sort by start + one pass) accepts
+   exactly-checked lists: every declared range is valid, no range is repeated, any two distinct
+   ranges are disjoint, and Has (binary search over the sorted copy) decides membership. *)
+Theorem C35_ranges_checkvalid_spec : forall ms l,
+  field_ranges_ok ms l = true ->
+  (forall r, In r l -> 1 <= fst r <= fr_end r /\ (ms = false -> fr_end r <= 536870911)) /\ NoDup l /\
+  (forall a b, In a l -> In b l -> a <> b -> disjoint fr_end a b) /\
+  (forall n, field_ranges_has l n = true <-> exists r, In r l /\ fst r <= n <= fr_end r).
+Proof. exact field_ranges_ok_spec. Qed.
+Print Assumptions C35_ranges_checkvalid_spec.
+
+Theorem C35_enum_ranges_checkvalid_spec : forall l,
+  enum_ranges_ok l = true ->
+  (forall r, In r l -> fst r <= snd r) /\ NoDup l /\
+  (forall a b, In a l -> In b l -> a <> b -> disjoint snd a b) /\
+  (forall n, enum_ranges_has l n = true <-> exists r, In r l /\ fst r <= n <= snd r).
+Proof. exact enum_ranges_ok_spec. Qed.
+Print Assumptions C35_enum_ranges_checkvalid_spec.
+
+(* checkoverlap_spec: the two-pointer sweep of CheckOverlap over two lists that passed
+   CheckValid reports no overlap only if every range of one is disjoint from every range of
+   the other. *)
+Theorem C35_checkoverlap_spec : forall ms a b,
+  field_ranges_ok ms a = true -> field_ranges_ok ms b = true -> ranges_no_overlap a b = true ->
+  forall x y, In x a -> In y b -> disjoint fr_end x y.
+Proof. exact ranges_no_overlap_spec. Qed.
+Print Assumptions C35_checkoverlap_spec.
+
+Example C35_ranges_nonvacuous :
+  field_ranges_ok false [(50, 60); (10, 20); (30, 40)] = true /\
+  field_ranges_ok false [(40, 50); (20, 30); (60, 70)] = true /\
+  ranges_no_overlap [(50, 60); (10, 20); (30, 40)] [(40, 50); (20, 30); (60, 70)] = true /\
+  ranges_no_overlap [(50, 60); (10, 20); (30, 40)] [(40, 50); (20, 31); (60, 70)] = false /\
+  field_ranges_ok false [(10, 20); (19, 30)] = false /\
+  field_ranges_has [(50, 60); (10, 20); (30, 40)] 39 = true /\
+  field_ranges_has [(50, 60); (10, 20); (30, 40)] 40 = false.
+Proof. exact ranges_examples. Qed.
 
 (* what acceptance means structurally: every message declaration of the tree passed its own
    checks and every enum declaration passed validateEnumDeclarations *)
